@@ -118,6 +118,25 @@ func forgeVC(issuer, signer *identity, subject string, typ string, exp time.Time
 	return signCompact(signer.key, map[string]any{"alg": "ES256", "typ": "JWT", "kid": issuer.kid}, claims)
 }
 
+const registrationCredType = "DiscoveryRegistrationCredential"
+
+// forgeSelfAttested makes the holder's own DiscoveryRegistrationCredential: no proof (the presentation's signature
+// covers it), no expirationDate unless exp is given.
+func forgeSelfAttested(subject string, exp *time.Time) map[string]any {
+	c := map[string]any{
+		"@context":          []string{"https://www.w3.org/2018/credentials/v1", "https://nuts.nl/credentials/v1"},
+		"id":                subject + "#" + freshID(),
+		"type":              []string{"VerifiableCredential", registrationCredType},
+		"issuer":            subject,
+		"issuanceDate":      time.Now().Add(-time.Minute).UTC().Format(time.RFC3339),
+		"credentialSubject": map[string]any{"id": subject, "authServerURL": "https://node.verif.example/oauth2/" + freshID()},
+	}
+	if exp != nil {
+		c["expirationDate"] = exp.UTC().Format(time.RFC3339)
+	}
+	return c
+}
+
 type vpSpec struct {
 	signer     *identity // whose DID is stated (iss, kid)
 	key        *ecdsa.PrivateKey
@@ -126,7 +145,7 @@ type vpSpec struct {
 	aud        []string
 	exp        time.Time
 	noExp      bool
-	creds      []string
+	creds      []any  // compact JWT credentials (string) and self-attested credentials (JSON object)
 	retractJTI string // "" = registration
 	retraction bool
 }
@@ -139,6 +158,7 @@ func forgeVP(s vpSpec) string {
 	vp := map[string]any{
 		"@context": []string{"https://www.w3.org/2018/credentials/v1"},
 		"type":     types,
+		"holder":   s.signer.did,
 	}
 	if len(s.creds) > 0 {
 		vp["verifiableCredential"] = s.creds
@@ -366,19 +386,14 @@ func referenceVerify(raw string, authority string, allowedMethods []string, acce
 	}
 	vp, _ := j.claims["vp"].(map[string]any)
 	info.Retraction = contains(strList(vp["type"]), retractionType)
-	var creds []string
+	var creds []any
 	switch c := vp["verifiableCredential"].(type) {
 	case string:
-		creds = []string{c}
+		creds = []any{c}
+	case map[string]any:
+		creds = []any{c}
 	case []any:
-		for _, x := range c {
-			s, ok := x.(string)
-			if !ok {
-				bad = append(bad, "credentials: non-JWT credential")
-				continue
-			}
-			creds = append(creds, s)
-		}
+		creds = c
 	}
 	if info.Retraction {
 		info.RetractJTI, _ = j.claims["retract_jti"].(string)
@@ -390,36 +405,68 @@ func referenceVerify(raw string, authority string, allowedMethods []string, acce
 		}
 		return info, bad
 	}
-	matching := 0
+	// the presentation definition has two input descriptors: a credentialType credential issued by the authority and
+	// the holder's DiscoveryRegistrationCredential carrying an authServerURL; "all and only": one credential each
+	member, registration := 0, 0
 	for _, c := range creds {
-		cj, err := splitJWT(c)
-		if err != nil {
+		switch cred := c.(type) {
+		case string:
+			cj, err := splitJWT(cred)
+			if err != nil {
+				bad = append(bad, "credentials: unparsable credential")
+				continue
+			}
+			if err := cj.verifySignature(); err != nil {
+				bad = append(bad, "credentials: "+err.Error())
+			}
+			ckid, _ := cj.header["kid"].(string)
+			ciss, _ := cj.claims["iss"].(string)
+			if didOfKid(ckid) != ciss {
+				bad = append(bad, "credentials: not signed by its issuer")
+			}
+			if cexp, ok := num(cj.claims["exp"]); ok && info.Exp > cexp {
+				bad = append(bad, "outlive: presentation outlives a credential")
+			}
+			if csub, _ := cj.claims["sub"].(string); csub != info.Signer {
+				bad = append(bad, "credentials: credential subject is not the signer")
+			}
+			cvc, _ := cj.claims["vc"].(map[string]any)
+			if contains(strList(cvc["type"]), credentialType) && ciss == authority {
+				member++
+			} else {
+				bad = append(bad, "definition: surplus credential that does not fulfil the presentation definition")
+			}
+		case map[string]any:
+			// without a proof of its own it is verifiable only as a claim of the holder, covered by the presentation's signature
+			if _, hasProof := cred["proof"]; hasProof {
+				bad = append(bad, "credentials: unexpected JSON-LD credential with a proof")
+			}
+			if iss, _ := cred["issuer"].(string); iss != info.Signer {
+				bad = append(bad, "credentials: unsigned credential that is not issued by the signer")
+			}
+			if holder, _ := vp["holder"].(string); holder != info.Signer {
+				bad = append(bad, "credentials: self-attested credential but the holder is not the signer")
+			}
+			if es, ok := cred["expirationDate"].(string); ok {
+				if t, err := time.Parse(time.RFC3339, es); err != nil || info.Exp > t.Unix() {
+					bad = append(bad, "outlive: presentation outlives a credential")
+				}
+			}
+			subj, _ := cred["credentialSubject"].(map[string]any)
+			if sid, _ := subj["id"].(string); sid != info.Signer {
+				bad = append(bad, "credentials: credential subject is not the signer")
+			}
+			if url, _ := subj["authServerURL"].(string); contains(strList(cred["type"]), registrationCredType) && url != "" {
+				registration++
+			} else {
+				bad = append(bad, "definition: surplus credential that does not fulfil the presentation definition")
+			}
+		default:
 			bad = append(bad, "credentials: unparsable credential")
-			continue
-		}
-		if err := cj.verifySignature(); err != nil {
-			bad = append(bad, "credentials: "+err.Error())
-		}
-		ckid, _ := cj.header["kid"].(string)
-		ciss, _ := cj.claims["iss"].(string)
-		if didOfKid(ckid) != ciss {
-			bad = append(bad, "credentials: not signed by its issuer")
-		}
-		if cexp, ok := num(cj.claims["exp"]); ok && info.Exp > cexp {
-			bad = append(bad, "outlive: presentation outlives a credential")
-		}
-		if csub, _ := cj.claims["sub"].(string); csub != info.Signer {
-			bad = append(bad, "credentials: credential subject is not the signer")
-		}
-		cvc, _ := cj.claims["vc"].(map[string]any)
-		if contains(strList(cvc["type"]), credentialType) && ciss == authority {
-			matching++
-		} else {
-			bad = append(bad, "definition: surplus credential that does not fulfil the presentation definition")
 		}
 	}
-	if matching != 1 {
-		bad = append(bad, fmt.Sprintf("definition: %d credentials fulfil the single input descriptor", matching))
+	if member != 1 || registration != 1 {
+		bad = append(bad, fmt.Sprintf("definition: %d member and %d registration credentials for the two input descriptors", member, registration))
 	}
 	return info, bad
 }
